@@ -36,6 +36,7 @@ if os.path.exists(os.path.join(COQ, "Props/C19.v")):
     if not ok:
         broken.append(("Props/C19.v", out[-3000:]))
 
+ck.log("coq theorems re-checked (broken: %s)" % [b[0] for b in broken])
 # 2. implementation: gcsizes in-process, the commands built from the working tree, the compiler
 work = ck.mkscratch()
 bindir = os.path.join(work, "bin")
@@ -44,14 +45,15 @@ rc, out = sh(["go", "build", "-o", bindir + "/", "./cmd/structlayout", "./cmd/st
 if rc != 0:
     ck.violation("cli-build", "structlayout commands do not build", {"log": out[-3000:]}, no_input=True)
     bail("cli build failed")
+ck.log("commands built")
 exe, out = ck.go_build("./cmd/hc19")
 if exe is None:
     ck.violation("harness-build", "harness does not build against /repo", {"log": out[-3000:]}, no_input=True)
     bail("harness build failed")
 res = os.path.join(work, "out.json")
-ntypes = 1500 if ck.thorough() else 110
+ntypes, nextra = (1500, 3000) if ck.thorough() else (60, 240)
 env = dict(GOENV); env["VERIF_REPO"] = REPO
-rc, out = sh([exe, "-work", work, "-out", res, "-seed", str(ck.seed), "-n", str(ntypes), "-bin", bindir], timeout=3000, env=env)
+rc, out = sh([exe, "-work", work, "-out", res, "-seed", str(ck.seed), "-n", str(ntypes), "-extra", str(nextra), "-bin", bindir], timeout=3000, env=env)
 if rc != 0:
     ck.violation("harness-run", "harness run failed: " + out[-500:], {"log": out[-3000:]}, no_input=True)
     bail("harness run failed")
@@ -71,7 +73,7 @@ def coq_case(c):
     gs = coq_list(["mkG (%d, %d) %d %d %s" % (g["Word"], g["MaxAlign"], g["Size"], g["Align"], zl(g["Offsets"])) for g in c["Gcsizes"]])
     cc = c["Compiler"]
     leaves = coq_list(["(%s, %d, %d, %d)" % (pl(l["Path"]), l["Off"], l["Size"], l["Align"]) for l in (cc["Leaves"] or [])])
-    return "mkCase (%s) %s %d %d %s %s %s %s %s" % (c["Coq"], gs, cc["Size"], cc["Align"], zl(cc["Offsets"]), leaves,
+    return "mkCase (%s) %s %s %d %d %s %s %s %s %s" % (c["Coq"], coq_bool(c["Tools"]), gs, cc["Size"], cc["Align"], zl(cc["Offsets"]), leaves,
                                                  entries(c["Lay"]), entries(c["Opt"]), entries(c["OptR"]))
 
 HEADER = """From Coq Require Import List ZArith Bool. Import ListNotations.
@@ -86,6 +88,7 @@ for k in range(0, len(cases), SHARD):
     files[name] = HEADER + "Definition cases : list case := %s.\n" % coq_list([coq_case(c) for c in cases[k:k + SHARD]]) + \
         "Definition M := Eval vm_compute in mismatches cases.\nDefinition V := Eval vm_compute in violations cases.\nPrint M.\nPrint V.\n"
 results = ck.coq_cases_parallel(files, timeout=1500, jobs=8)
+ck.log("cases evaluated")
 
 def parse(val):
     res = []
@@ -145,9 +148,12 @@ if broken and not ck.violations:
     ck.violation("obligation:" + broken[0][0], "proof obligation or tie no longer checks (%s); property predicates hold on all %d explored types" % (broken[0][0], len(cases)),
                  {"broken": broken}, no_input=True)
 
-def nontrivial(c):
-    es = c["Lay"]["Entries"] or []
-    return any(e["Pad"] for e in es) or any(len(e["Path"] or []) > 1 for e in es) or any(l["Size"] == 0 for l in (c["Compiler"]["Leaves"] or []))
+def leaves(c): return c["Compiler"]["Leaves"] or []
+def has_pad(c): return sum(l["Size"] for l in leaves(c)) < c["Compiler"]["Size"]
+def has_nested(c): return any(len(l["Path"]) > 1 for l in leaves(c))
+def has_zero(c): return any(l["Size"] == 0 for l in leaves(c))
+def nontrivial(c): return has_pad(c) or has_nested(c) or has_zero(c)
+tool = [c for c in cases if c["Tools"]]
 distinct = {c["Coq"] for c in cases if nontrivial(c)}
 ck.trusted += ["hc19 (/verif/harness/cmd/hc19): type generator, name->index-path mapping of the tools' JSON, transcription of the generated program's output",
                "the Go toolchain /repo builds with, as the reference for unsafe.Sizeof/Alignof/Offsetof (amd64)"]
@@ -155,14 +161,14 @@ ck.assume += ["sort.Sort returns a permutation of its input in which no later el
               "gc layout rules as transcribed in Model/C19.v gc_sa (compared with the running compiler on every generated type)",
               "theorems cover WordSize = MaxAlign in {4, 8} (386/arm and amd64/arm64 settings); the commands are exercised on the host architecture only"]
 ck.finish({
-    "evaluations": len(cases) * (len(cases[0]["Gcsizes"]) + 4) if cases else 0,
+    "evaluations": len(cases) * 5 + len(tool) * 3,
     "distinct_nontrivial": len(distinct),
-    "rule": "one case = one generated struct type laid out by gcsizes (4 word-size/max-align settings, in-process), by the compiler (compiled and run program), by structlayout -json and by structlayout-optimize with and without -r (commands built from the working tree); non-trivial = the layout has padding, a nested struct or a zero-size field; distinct by the type's structure",
+    "rule": "one case = one generated struct type laid out by gcsizes (4 word-size/max-align settings, in-process) and by the compiler (compiled and run program: Sizeof/Alignof/Offsetof of the struct, its fields and all leaves); the first `tool_types` of them also by structlayout -json and by structlayout-optimize with and without -r (commands built from the working tree). evaluations = 5 per type (4 gcsizes settings + reference rules vs compiler) + 3 per tool type. non-trivial = the compiler's layout has padding, a nested struct or a zero-size field; distinct by the type's structure",
     "samples": [{"type": c["Src"], "compiler": c["Compiler"], "structlayout": c["Lay"]["Entries"]} for c in cases[18:21]],
-    "types": len(cases), "directed_types": 18,
-    "with_padding": sum(1 for c in cases if any(e["Pad"] for e in (c["Lay"]["Entries"] or []))),
-    "with_nested_struct": sum(1 for c in cases if any(len(e["Path"] or []) > 1 for e in (c["Lay"]["Entries"] or []))),
-    "with_zero_size_field": sum(1 for c in cases if any(l["Size"] == 0 for l in (c["Compiler"]["Leaves"] or []))),
-    "with_trailing_zero_size": sum(1 for c in cases if (c["Compiler"]["Leaves"] or []) and c["Compiler"]["Leaves"][-1]["Size"] == 0),
+    "types": len(cases), "tool_types": len(tool), "directed_types": 18,
+    "with_padding": sum(1 for c in cases if has_pad(c)), "tool_with_padding": sum(1 for c in tool if has_pad(c)),
+    "with_nested_struct": sum(1 for c in cases if has_nested(c)), "tool_with_nested_struct": sum(1 for c in tool if has_nested(c)),
+    "with_zero_size_field": sum(1 for c in cases if has_zero(c)), "tool_with_zero_size_field": sum(1 for c in tool if has_zero(c)),
+    "with_trailing_zero_size": sum(1 for c in cases if leaves(c) and leaves(c)[-1]["Size"] == 0),
     "model_mismatches": len(M), "property_violations": len(V),
 })
